@@ -614,3 +614,22 @@ func SignWith(k *Key, signer string, rrset []dns.RR, now time.Time) *dns.RRSIG {
 	}
 	return sig
 }
+
+// SignWindow is Sign with an explicit validity window (not cached): genuine
+// signatures of the zone made in the past / for the future, as an attacker
+// replaying captured data would present them.
+func (z *Zone) SignWindow(rrset []dns.RR, inception, expiration time.Time) *dns.RRSIG {
+	k := z.signerFor(rrset[0].Header().Rrtype)
+	h := rrset[0].Header()
+	sig := &dns.RRSIG{Hdr: dns.RR_Header{Name: h.Name, Rrtype: dns.TypeRRSIG, Class: h.Class, Ttl: h.Ttl},
+		Algorithm: k.DNSKEY.Algorithm, OrigTtl: h.Ttl, KeyTag: k.Tag, SignerName: z.Apex,
+		Inception: uint32(inception.Unix()), Expiration: uint32(expiration.Unix())}
+	cp := make([]dns.RR, len(rrset))
+	for i, rr := range rrset {
+		cp[i] = dns.Copy(rr)
+	}
+	if err := sig.Sign(k.Priv, cp); err != nil {
+		panic("zonemodel: SignWindow: " + err.Error())
+	}
+	return sig
+}
